@@ -251,15 +251,19 @@ fn beyond_alphabet() -> Vec<Op> {
 pub fn families(prop: crate::explore::Prop, quick: bool) -> Vec<Family> {
     use crate::explore::Prop::*;
     let tight = Config { buf: 160, limit: Some(120) };
+    let small = Config { buf: 110, limit: None };
     let d = |q: usize, t: usize| if quick { q } else { t };
+    const FULL: &str = "all writer methods: header setters, questions, rr/rrset in three sections with every hint kind, limits, compression modes, EDNS, extended RCODEs, TSIG, clear_rrs, templates, 16 KiB TXT, malformed RDATA";
+    const HINTS: &str = "owners given with every hint kind (contract-respecting, incl. case-flipped), RDATA names, hint vectors, mode switches, clear_rrs";
     match prop {
         C12 => vec![
+            Family { name: "full", what: FULL, alphabet: full_alphabet(), configs: vec![whole()], depth: d(4, 5) },
             Family {
-                name: "full",
-                what: "all writer methods: header setters, questions, rr/rrset in three sections with every hint kind, limits, compression modes, EDNS, extended RCODEs, TSIG, clear_rrs, templates, 16 KiB TXT, malformed RDATA",
+                name: "full-tight",
+                what: "the full alphabet in a 160-octet buffer with initial limit 120 (truncations and rollbacks everywhere)",
                 alphabet: full_alphabet(),
-                configs: vec![whole(), tight.clone()],
-                depth: d(4, 5),
+                configs: vec![tight],
+                depth: 4,
             },
             Family {
                 name: "header",
@@ -289,11 +293,12 @@ pub fn families(prop: crate::explore::Prop, quick: bool) -> Vec<Family> {
                 configs: vec![whole(), Config { buf: 200, limit: None }],
                 depth: d(5, 6),
             },
+            Family { name: "names-and-hints", what: HINTS, alphabet: hints_alphabet(), configs: vec![whole()], depth: 6 },
             Family {
-                name: "names-and-hints",
-                what: "owners given with every hint kind (contract-respecting, incl. case-flipped), RDATA names, hint vectors, mode switches, rollbacks forced by a 110-octet buffer",
+                name: "names-and-hints-small",
+                what: "the names-and-hints alphabet in a 110-octet buffer: rollbacks of half-written records between hinted names",
                 alphabet: hints_alphabet(),
-                configs: vec![whole(), Config { buf: 110, limit: None }],
+                configs: vec![small],
                 depth: d(6, 7),
             },
         ],
@@ -314,18 +319,12 @@ pub fn families(prop: crate::explore::Prop, quick: bool) -> Vec<Family> {
             },
             Family {
                 name: "names-and-hints",
-                what: "the C12 names-and-hints family under the pointer oracle (rollbacks forced by a 110-octet buffer)",
+                what: "the C12 names-and-hints alphabet under the pointer oracle, in a 65 535-octet and in a 110-octet buffer (rollbacks)",
                 alphabet: hints_alphabet(),
-                configs: vec![whole(), Config { buf: 110, limit: None }],
+                configs: vec![whole(), small],
                 depth: d(5, 6),
             },
-            Family {
-                name: "full",
-                what: "the C12 full alphabet under the pointer oracle",
-                alphabet: full_alphabet(),
-                configs: if quick { vec![whole(), tight] } else { vec![whole()] },
-                depth: d(4, 5),
-            },
+            Family { name: "full", what: "the C12 full alphabet under the pointer oracle", alphabet: full_alphabet(), configs: vec![whole(), tight], depth: 4 },
         ],
     }
 }
